@@ -571,7 +571,10 @@ func RunCheck(o CheckOpts) int {
 		}
 	}
 	for _, ob := range obs {
-		if why, ok := staleContract[ob.Function]; ok && (ob.Result == "failed" || ob.Result == "unknown") && ob.Kind != "og-schema" && ob.Kind != "anchor" {
+		// a goal that is concretely false is decided by the executor's own state
+		// (lockset, call counts), not by anything a dropped clause could have contributed
+		concrete := ob.Result == "failed" && ob.failing != nil && ob.failing.Goal == "false"
+		if why, ok := staleContract[ob.Function]; ok && !concrete && (ob.Result == "failed" || ob.Result == "unknown") && ob.Kind != "og-schema" && ob.Kind != "anchor" {
 			ob.Result = "undecided"
 			ob.Reason = "another clause of this function's contract could not be evaluated on this tree, so what this obligation relies on may be missing: " + why
 		}
